@@ -101,6 +101,9 @@ class QPlugin:
 
     def shutdown(self):
         for j in list(self.running_jobs.values()):
+            if j.done:
+                # timed out or killed in the meantime: nothing left to do
+                continue
             logger.debug("reschedule %s" % j)
             self.workq.pushjob(j)
 
